@@ -46,20 +46,22 @@ def classify(v):
 
 def plan(tier):
     if tier == "thorough":
-        return dict(cases=32000, shards=16, timeout=1800, min_nontrivial=3000)
-    return dict(cases=640, shards=16, timeout=240, min_nontrivial=60)
+        return dict(cases=128000, shards=16, timeout=3400, min_nontrivial=12000)
+    return dict(cases=2560, shards=16, timeout=400, min_nontrivial=240)
 
 
 def run_case(index, rng, tier):
     relay = (index % 10 == 9)
     long = (index % 40 == 3) if tier == "thorough" else (index % 160 == 3)
-    prog = gen_program(rng, mode="reliable", heavy=(index % 4 != 0), long=long)
+    mode = "mixed" if index % 5 == 2 else "reliable"  # reliable channels next to partially reliable ones
+    prog = gen_program(rng, mode=mode, heavy=(index % 4 != 0), long=long)
     r = run_program(prog, rng, relay=relay)
     c = dict(r["counters"])
     w = r["wire"]
     for k in ("drop_data", "tx_rtx", "rx_data_out_of_order", "tx_sack_with_gaps", "tx_sack_with_dups", "drop_sack"):
         c["wire_" + k] = w.get(k, 0)
     c["drain_" + r["drain"]] = 1
+    c["mixed_reliability_cases"] = 1 if mode == "mixed" else 0
     if r.get("drain2"):
         c["drain2_" + r["drain2"]] = 1
     viol = []
